@@ -335,20 +335,32 @@ func HarnessC02Format() {
 	wf := func(k int) string {
 		return "on: push\njobs:\n  j" + strconv.Itoa(k) + ":\n    runs-on: ubuntu-latest\n    steps:\n      - run: echo ${{ unknown" + strconv.Itoa(k) + ".x }}\n"
 	}
-	paths := []string{"/r/.github/workflows/a.yml", "/r/.github/workflows/b.yml", "/r/.github/workflows/c.yml"}
+	// two repositories; /r's configuration ignores the diagnostics of its files, /s has none
+	paths := []string{"/r/.github/workflows/a.yml", "/r/.github/workflows/c.yml", "/s/.github/workflows/b.yml"}
 	if verifIsNative() {
 		verifC02NativeFormat()
 		return
 	}
 	verifC10Files = map[string]string{paths[0]: wf(0), paths[1]: wf(1), paths[2]: wf(2)}
-	verifC10Cfg = map[string]*Config{}
+	verifC10Cfg = map[string]*Config{
+		"/r": verifConfig("paths:\n  .github/workflows/a.yml:\n    ignore:\n      - undefined variable\n"),
+	}
 	verifSetCwd("/")
 	verifOverride("os.ReadFile", verifC10ReadFile)
 	verifOverride("findProject", verifC10FindProject)
 	verifOverride("loadRepoConfig", verifC10RepoConfig)
 	verifOverride("(*ErrorFormatter).Print", verifC02Print)
+	alone := ""
+	for _, p := range paths {
+		l := verifLinter("", "", "")
+		errs, err := l.LintFile(p, nil)
+		verifCheck(err == nil, "lint-failed")
+		for _, e := range errs {
+			alone += e.Filepath + ":" + strconv.Itoa(e.Line) + ": " + e.Message + "\n"
+		}
+	}
 	run := func(order []int) (string, string) {
-		l := &Linter{projects: NewProjects(), cwd: "", out: nil, errFmt: &ErrorFormatter{rules: map[string]*ruleTemplateFields{}}}
+		l := verifLinterFmt("", &ErrorFormatter{rules: map[string]*ruleTemplateFields{}})
 		verifC02Stream = ""
 		verifGoOrder(order)
 		errs, err := l.LintFiles(paths, nil)
@@ -364,6 +376,181 @@ func HarnessC02Format() {
 	s1, r1 := run(perm)
 	verifReach("compared")
 	verifCheckf(len(s0) > 0 && len(r0) > 0, "baseline-lost-its-diagnostics", s0)
+	verifCheckf(r0 == alone, "multi-file-result-differs-from-the-files-linted-alone", r0+" <> "+alone)
 	verifCheckf(s0 == s1, "formatted-output-depends-on-goroutine-completion-order", s1)
 	verifCheckf(r0 == r1, "returned-diagnostics-depend-on-goroutine-completion-order", r1)
+}
+
+// HarnessC02Testdata: the map-order self-composition on the repository's own
+// example workflows (every YAML file under testdata/ok, testdata/err and
+// testdata/examples of the current tree, compiled in at run time): chunk c of
+// n. For each file and each function that ranges over a map while the file is
+// linted, the file is linted again with that function's iterations in symbolic
+// order (at most `budget` order decisions per path, the rest in insertion
+// order; maps of more than 3 entries in 3 fixed permutations).
+func HarnessC02Testdata(c, n, budget int) {
+	var mine []int
+	for k := c; k < len(verifCorpusFiles); k += n {
+		mine = append(mine, k)
+	}
+	if len(mine) == 0 {
+		verifReach("compared")
+		return
+	}
+	src := verifCorpusFiles[mine[verifChoose("file", len(mine))]]
+	verifRecordMapRangers(true)
+	e0 := verifLintNode(verifParseYAML(src), verifRules())
+	verifRecordMapRangers(false)
+	fns := verifMapRangers()
+	if !verifIsNative() && len(fns) == 0 {
+		verifReach("compared")
+		return
+	}
+	fn := "(native: Go's own random iteration order, 20 repetitions)"
+	reps := 20
+	if !verifIsNative() {
+		fn = fns[verifChoose("site", len(fns))]
+		reps = 1
+	}
+	for r := 0; r < reps; r++ {
+		verifMapOrderBudget(budget)
+		verifMapOrder(true, fn)
+		e1 := verifLintNode(verifParseYAML(src), verifRules())
+		verifMapOrder(false)
+		verifCheckf(verifSameSeq(e0, e1), "output-depends-on-map-iteration-order", fn+": "+verifErrTextConc(e1))
+	}
+	verifReach("compared")
+}
+
+// HarnessC02SharedDefect: two files of one repository use the same local
+// action whose metadata file is broken. The defect is reported once per run
+// (the action cache is shared); which file carries that report must not
+// depend on which per-file goroutine gets to the action first.
+func HarnessC02SharedDefect() {
+	wf := "on: push\njobs:\n  j:\n    runs-on: ubuntu-latest\n    steps:\n      - uses: ./broken\n"
+	paths := []string{"/r/.github/workflows/a.yml", "/r/.github/workflows/b.yml"}
+	if verifIsNative() {
+		verifReach("compared") // the symbolic counterexample is a whole-goroutine order; natively see verifC02NativeSharedDefect
+		verifC02NativeSharedDefect()
+		return
+	}
+	verifC10Files = map[string]string{paths[0]: wf, paths[1]: wf, "/r/broken/action.yml": "name: act\nruns:\n  using: node20\n  main: [\n"}
+	verifC10Cfg = map[string]*Config{}
+	verifSetCwd("/")
+	verifOverride("os.ReadFile", verifC10ReadFile)
+	verifOverride("findProject", verifC10FindProject)
+	verifOverride("loadRepoConfig", verifC10RepoConfig)
+	run := func(order []int) string {
+		l := verifLinter("", "", "")
+		verifGoOrder(order)
+		errs, err := l.LintFiles(paths, nil)
+		verifGoOrder(nil)
+		verifCheck(err == nil, "lint-failed")
+		ret := ""
+		for _, e := range errs {
+			ret += e.Filepath + ":" + strconv.Itoa(e.Line) + ": " + e.Message + "\n"
+		}
+		return ret
+	}
+	r0 := run([]int{0, 1})
+	r1 := run([]int{1, 0})
+	verifReach("compared")
+	verifCheckf(len(r0) > 0, "baseline-lost-its-diagnostics", r0)
+	verifCheckf(r0 == r1, "shared-defect-reported-by-whichever-file-reaches-it-first", r0+" <> "+r1)
+}
+
+// HarnessC02Repeat: repeated executions. One Linter lints the same file twice
+// (LintFile, then LintFiles, then LintFile again): every run returns the same
+// diagnostics — also those that the shared caches report once per run (a local
+// action whose metadata is broken, a reusable workflow that does not exist).
+func HarnessC02Repeat() {
+	wf := "on: push\njobs:\n  c:\n    uses: ./.github/workflows/missing.yml\n  j:\n    runs-on: ubuntu-latest\n    steps:\n      - uses: ./broken\n      - run: echo ${{ unknown.x }}\n"
+	path := "/r/.github/workflows/a.yml"
+	if verifIsNative() {
+		verifC02NativeRepeat(wf)
+		return
+	}
+	verifC10Files = map[string]string{path: wf, "/r/broken/action.yml": "name: act\nruns:\n  using: node20\n  main: [\n"}
+	verifC10Cfg = map[string]*Config{}
+	verifSetCwd("/")
+	verifOverride("os.ReadFile", verifC10ReadFile)
+	verifOverride("findProject", verifC10FindProject)
+	verifOverride("loadRepoConfig", verifC10RepoConfig)
+	l := verifLinter("", "", "")
+	digest := func(errs []*Error, err error) string {
+		verifCheck(err == nil, "lint-failed")
+		out := ""
+		for _, e := range errs {
+			out += strconv.Itoa(e.Line) + ":" + strconv.Itoa(e.Column) + ": " + e.Message + "\n"
+		}
+		return out
+	}
+	r0 := digest(l.LintFile(path, nil))
+	r1 := digest(l.LintFiles([]string{path}, nil))
+	r2 := digest(l.LintFile(path, nil))
+	verifReach("compared")
+	verifCheckf(len(r0) > 0, "baseline-lost-its-diagnostics", r0)
+	verifCheckf(r0 == r1 && r0 == r2, "result-depends-on-how-many-times-the-run-is-repeated", r0+" <> "+r1+" <> "+r2)
+}
+
+// HarnessC02Config: the map-order self-composition with a repository
+// configuration whose lists contain duplicates (runner labels, configuration
+// variables): messages that list the configured names do not depend on any
+// map iteration order.
+func HarnessC02Config() {
+	cfgText := "self-hosted-runner:\n  labels:\n    - gpu-large\n    - gpu-small\n    - arm64-builder\n    - gpu-large\n    - windows-*\n    - gpu-small\nconfig-variables:\n  - ZETA\n  - ALPHA\n  - ZETA\n  - MID\n"
+	src := "on: push\njobs:\n  j:\n    runs-on: gpu-medium\n    steps:\n      - run: echo ${{ vars.NOPE }}\n  k:\n    runs-on: [self-hosted, gpu-tiny]\n    steps:\n      - run: echo ${{ vars.NOPE2 }}\n"
+	lint := func() []*Error {
+		cfg := verifConfig(cfgText)
+		rules := verifRules()
+		for _, r := range rules {
+			r.SetConfig(cfg)
+		}
+		return verifLintNode(verifParseYAML(src), rules)
+	}
+	verifRecordMapRangers(true)
+	e0 := lint()
+	verifRecordMapRangers(false)
+	fns := verifMapRangers()
+	verifCheck(len(e0) >= 3, "baseline-lost-its-diagnostics")
+	reps := 1
+	fn := "(native: Go's own random iteration order, 60 repetitions)"
+	if verifIsNative() {
+		reps = 60
+	} else if len(fns) > 0 {
+		fn = fns[verifChoose("site", len(fns))]
+	} else {
+		verifReach("compared")
+		return
+	}
+	for r := 0; r < reps; r++ {
+		verifMapOrder(true, fn)
+		e1 := lint()
+		verifMapOrder(false)
+		verifCheckf(verifSameSeq(e0, e1), "output-depends-on-map-iteration-order", fn+": "+verifErrTextConc(e1))
+	}
+	verifReach("compared")
+}
+
+// HarnessC02ConfigError: a configuration with several invalid glob patterns in
+// `paths`: the fatal error names the same pattern whatever order the map of
+// path configurations is iterated in.
+func HarnessC02ConfigError() {
+	src := "paths:\n  \"[b\":\n    ignore: []\n  \"ok/**\":\n    ignore: []\n  \"[a\":\n    ignore: []\n  \"[c\":\n    ignore: []\n"
+	_, err0 := ParseConfig([]byte(src))
+	verifCheck(err0 != nil, "invalid-glob-pattern-accepted")
+	if err0 == nil {
+		return
+	}
+	reps := 1
+	if verifIsNative() {
+		reps = 100
+	}
+	for r := 0; r < reps; r++ {
+		verifMapOrder(true, "ParseConfig")
+		_, err1 := ParseConfig([]byte(src))
+		verifMapOrder(false)
+		verifCheckf(err1 != nil && err1.Error() == err0.Error(), "output-depends-on-map-iteration-order", err0.Error())
+	}
+	verifReach("compared")
 }
